@@ -7,7 +7,8 @@ import z3
 
 from .sx_base import (BreakSig, ContinueSig, GenError, PathEnd, RaiseSig, ReturnSig)
 from .sx_expr import is_const
-from .values import (Sym, VCtxMgr, VExc, VFunc, VList, VObj, VOpaque, VOpt, VSet, exc_isinstance)
+from .values import (Sym, VCtxMgr, VExc, VFunc, VList, VObj, VOpaque, VOpt, VRefMap, VSet, exc_isinstance)
+from .theory import Ref, Int as _Int
 
 MUTATORS = {"append", "extend", "insert", "pop", "remove", "clear", "update", "add", "discard",
             "setdefault", "sort", "reverse"}
@@ -52,6 +53,8 @@ class StmtMixin:
                     for t in (s.targets if isinstance(s, ast.Assign) else [s.target]))
                 if hit and inloop and self.loop_depth == 0:
                     hit = False
+            elif pat.startswith("call:"):
+                hit = isinstance(s, ast.Expr) and isinstance(s.value, ast.Call) and ast.unparse(s.value.func) == pat[5:]
             else:
                 hit = src == pat
             if hit:
@@ -75,6 +78,11 @@ class StmtMixin:
 
     def s_Expr(self, s):
         if isinstance(s.value, ast.Constant):
+            return
+        if isinstance(s.value, ast.Yield):
+            # generator: the yielded values form the (finite) result log
+            v = self.eval(s.value.value) if s.value.value is not None else None
+            self.log.append(("YIELD", {"value": v}, None))
             return
         self.eval(s.value)
 
@@ -114,6 +122,10 @@ class StmtMixin:
         self.assign(s.target, self.binop(s.op, cur, v))
 
     def set_name(self, name, v):
+        hint0 = self.unit.local_kind(self, name)
+        if hint0 in ("refset", "refmap:int") and not self.frames and isinstance(v, (VSet, dict)) and not (v.members if isinstance(v, VSet) else v):
+            v = VRefMap(z3.K(Ref, z3.BoolVal(False)) if hint0 == "refset" else z3.K(Ref, z3.IntVal(-1)),
+                        "bool" if hint0 == "refset" else "int")
         if isinstance(v, list):
             hint = self.unit.local_kind(self, name)
             if hint and hint.startswith("list[") and not self.frames:
@@ -207,6 +219,9 @@ class StmtMixin:
             self.pc.append(ok)
             i = z3.simplify(z3.If(i < 0, i + n, i))
             self.list_store(base, i, v)
+            return
+        if isinstance(base, VRefMap):
+            base.arr = z3.Store(base.arr, self.z(idx), self.z(v))
             return
         if isinstance(base, Sym) and base.k == "ref":
             return self.unit.ref_setitem(self, base, idx, v)
@@ -324,14 +339,26 @@ class StmtMixin:
         cm.exit(self, None)
 
     def s_Try(self, s):
+        names = []
+        for h in s.handlers:
+            if h.type is None:
+                names.append("BaseException")
+            else:
+                for t in (h.type.elts if isinstance(h.type, ast.Tuple) else [h.type]):
+                    names.append(t.attr if isinstance(t, ast.Attribute) else t.id)
         try:
             try:
-                self.exec_block(s.body)
+                self.try_stack.append(names)
+                try:
+                    self.exec_block(s.body)
+                finally:
+                    self.try_stack.pop()
             except RaiseSig as r:
                 for h in s.handlers:
                     if self.handler_matches(h, r.exc):
                         if h.name:
                             self.envs[-1][h.name] = r.exc
+                        self.handled.append(r.exc.cls)
                         self.cur_exc.append(r.exc)
                         try:
                             self.exec_block(h.body)
@@ -388,6 +415,8 @@ class StmtMixin:
                 seq, m = self.iter_view(payload[0])
                 start = payload[1]
                 return seq, (lambda k, x: (self.wrap(self.zi(k) + start, "int") if not (isinstance(k, int) and isinstance(start, int)) else k + start, m(k, x)))
+            if kind == "custom":
+                return payload
             if kind == "range":
                 lo, hi = payload
                 if isinstance(lo, int) and isinstance(hi, int):
@@ -397,11 +426,13 @@ class StmtMixin:
                 return VList(z3.If(n > 0, n, 0), arr, "int"), ident
         if isinstance(it, dict):
             return list(it), ident
-        if isinstance(it, tuple):
-            return list(it), ident
+        if isinstance(it, (tuple, frozenset, set)):
+            return sorted(it) if isinstance(it, (frozenset, set)) else list(it), ident
         if isinstance(it, str):
             return list(it), ident
         if isinstance(it, VSet):
+            if all(m is True for m in it.members.values()):
+                return list(it.members), ident
             raise GenError("iteration over symbolic set")
         if isinstance(it, (list, VList)):
             return (list(it) if isinstance(it, list) else it), ident
@@ -471,7 +502,7 @@ class StmtMixin:
 
     def is_object(self, name):
         try:
-            return isinstance(self.lookup(name), (list, VList, VObj, VSet, dict))
+            return isinstance(self.lookup(name), (list, VList, VObj, VSet, VRefMap, dict))
         except (GenError, KeyError):
             return False
 
@@ -491,6 +522,9 @@ class StmtMixin:
             e = cur.elem
             f = self.fresh("list[%s]" % (e if isinstance(e, str) else "tuple[%s]" % ",".join(e)), name)
             cur.length, cur.arr = f.length, f.arr
+            return
+        if isinstance(cur, VRefMap):
+            cur.arr = z3.FreshConst(cur.arr.sort(), name)
             return
         if isinstance(cur, VSet):
             hint = self.unit.local_kind(self, name)
